@@ -7,6 +7,7 @@ package routing
 
 //@ func newRoute
 //@   props C19
+//@   bounds-safe
 //@   requires blindedPathSet == nil
 //@   requires forallq(k, 0, len(pathEdges), pathEdges[k] != nil && pathEdges[k].policy != nil)
 //@   let last = len(pathEdges) - 1
@@ -33,12 +34,14 @@ package routing
 //@
 //@ func (u *unifiedEdge) amtInRange
 //@   props C19
+//@   bounds-safe
 //@   ensures result <==> (!(u.capacity > 0 && amt > wrap(u.capacity * 1000, 64)) && !(u.policy.HasMaxHTLC && amt > u.policy.MaxHTLC) &&
 //@           amt >= u.policy.MinHTLC)
 //@   modifies nothing
 //@
 //@ func calcCappedInboundFee
 //@   props C19
+//@   bounds-safe
 //@   requires nextOutFee <= 1<<62
 //@   ensures result == max(ret(CalcFee), -nextOutFee)
 //@   site call CalcFee: assert arg(0) == addr(edge.inboundFees) && arg(1) == amt
@@ -46,6 +49,7 @@ package routing
 //@
 //@ func (u *edgeUnifier) getEdgeLocal
 //@   props C19
+//@   bounds-safe
 //@   requires nextOutFee <= 1<<62
 //@   loop * havoc
 //@   site call newUnifiedEdge: assert arg(0) == edge.policy && arg(2) == edge.inboundFees &&
@@ -57,6 +61,7 @@ package routing
 //@
 //@ func (u *edgeUnifier) getEdgeNetwork
 //@   props C19
+//@   bounds-safe
 //@   requires nextOutFee <= 1<<62
 //@   loop * havoc
 //@   site call newUnifiedEdge nth 0: assert arg(0) == edge.policy && arg(2) == edge.inboundFees &&
@@ -67,6 +72,7 @@ package routing
 //@
 //@ func findPath$2
 //@   props C19
+//@   bounds-safe
 //@   loop * havoc
 //@   site mapupdate distance as feelimit: assert amountToSend <= amt || amountToSend - amt <= r.FeeLimit
 //@   site mapupdate distance as prob: assert !feq(edgeProbability, flit(0))
@@ -96,6 +102,7 @@ package routing
 //@
 //@ func (b *bandwidthManager) getBandwidth
 //@   props C19
+//@   bounds-safe
 //@   ensures result1 == nil ==> retn(getLink, 1) == nil && ret(EligibleToForward) && ret(MayAddOutgoingHtlc) == nil
 //@   site call Bandwidth: assert ret(EligibleToForward)
 //@   site call MayAddOutgoingHtlc: assert ret(EligibleToForward)
@@ -104,6 +111,7 @@ package routing
 //@ // ---- unifier construction: only permitted local channels, the edge's own policy/capacity/fee, one unifier per from-node
 //@ func (u *nodeEdgeUnifier) addPolicy
 //@   props C19
+//@   bounds-safe
 //@   loop * havoc
 //@   site call newUnifiedEdge: assert arg(policy) == edge && arg(capacity) == capacity && arg(hopPayloadSizeFn) == hopPayloadSizeFn &&
 //@        arg(blindedPayment) == blindedPayment && hopPayloadSizeFn != nil &&
@@ -116,18 +124,21 @@ package routing
 //@
 //@ func (u *edgeUnifier) getEdge
 //@   props C19
+//@   bounds-safe
 //@   requires nextOutFee <= 1<<62
 //@   site call getEdgeLocal: assert u.localChan && arg(netAmtReceived) == netAmtReceived && arg(bandwidthHints) == bandwidthHints && arg(nextOutFee) == nextOutFee
 //@   site call getEdgeNetwork: assert !u.localChan && arg(netAmtReceived) == netAmtReceived && arg(nextOutFee) == nextOutFee
 //@
 //@ func newUnifiedEdge
 //@   props C19
+//@   bounds-safe
 //@   ensures result != nil && result.policy == policy && result.capacity == capacity && result.inboundFees.Base == inboundFees.Base &&
 //@           result.inboundFees.Rate == inboundFees.Rate && result.blindedPayment == blindedPayment
 //@
 //@ // ---- a signed update for a hinted edge replaces all three policy values, and only if the signature verifies
 //@ func (p *paymentSession) UpdateAdditionalEdge
 //@   props C19
+//@   bounds-safe
 //@   requires msg != nil && policy != nil
 //@   site call VerifyChannelUpdateSignature: assert arg(0) == msg && arg(1) == pubKey
 //@   ensures result ==> ret(VerifyChannelUpdateSignature) == nil && policy.TimeLockDelta == msg.TimeLockDelta &&
@@ -149,6 +160,7 @@ package routing
 //@ // ---- a payment to a blinded path tells pathfinding so (the final-hop size estimate depends on it)
 //@ func (p *paymentSession) RequestRoute
 //@   props C19
+//@   bounds-safe
 //@   loop * havoc
 //@   site call GraphSession nth 0 as restrictions-name-the-blinded-path-set: assert restrictions.BlindedPaymentPathSet == p.payment.BlindedPathSet
 //@   site call newRoute as newroute-domain: domain arg(blindedPathSet) == nil && forallq(k, 0, len(arg(pathEdges)), arg(pathEdges)[k] != nil && arg(pathEdges)[k].policy != nil)
@@ -158,5 +170,6 @@ package routing
 //@
 //@ func (p *paymentSession) RequestRoute$1
 //@   props C19
+//@   bounds-safe
 //@   loop * havoc
 //@   site call pathFinder: assert arg(1) == restrictions && arg(6) == maxAmt && arg(8) == finalHtlcExpiry
